@@ -108,6 +108,13 @@ func TestFallbackViewStable(t *testing.T) {
 			harness.Violation(t, cfg.Prop, test, "fallback-view-hangs", sc, "%+v: the execution had not ended after 30s", sc)
 		}
 		if !entered {
+			if sc.Source == "timeout" {
+				// the machine stalled for longer than the limit before the fallback was reached: the execution was already
+				// cancelled, so the fallback is rightly skipped; nothing to observe
+				b, _ := json.Marshal(sc)
+				st.Case(string(b), false, "source="+sc.Source, "saw-cancel=false")
+				return
+			}
 			harness.Violation(t, cfg.Prop, test, "fallback-not-applied", sc, "%+v: the fallback function was not invoked for a failure it handles", sc)
 		}
 		// LastError reports the context's error when no error is recorded and the context is done: only a recorded error,
